@@ -178,8 +178,10 @@ func runControl(w *sim.World, s *Session, segs []int) (*outcome, error) {
 		})
 	}
 	var flushErr error
+	sawFinal := false // the handler came back for more after the last byte: it has processed everything
 	sc.OnRead = func(d int) {
 		if d >= len(data) {
+			sawFinal = true
 			// the client has said everything: let the replies out before it hangs up
 			if err := flush(w); err != nil {
 				flushErr = err
@@ -215,6 +217,7 @@ func runControl(w *sim.World, s *Session, segs []int) (*outcome, error) {
 		end["err"] = fmt.Sprintf("%v; %v", end["err"], flushErr)
 	}
 	end["d"] = sc.Delivered()
+	end["fin"] = sawFinal && end["timeout"] == false
 	_ = sc.Close()
 	written := sc.Written()
 	obs := map[string]any{"out": "", "nout": 0}
@@ -293,6 +296,7 @@ func runTransfer(w *sim.World, s *Session, segs []int) (*outcome, error) {
 		end["timeout"] = true
 	}
 	end["d"] = sc.Delivered()
+	end["fin"] = sc.Delivered() == len(data) && end["timeout"] == false // a transfer handler need not read past the last byte
 	_ = sc.Close()
 	written := sc.Written()
 	keys, err := fsKeys(w.Root)
@@ -310,7 +314,7 @@ func emptyObs() map[string]any {
 // setupFailed: the unsegmented helper connection of a transfer session did not get as far as a reference
 // number.  Nothing about the scripted stream was observed; the trace specification reports it as drift.
 func setupFailed(err error) *outcome {
-	return &outcome{end: map[string]any{"op": "end", "timeout": false, "err": "", "setup": err.Error(), "d": 0, "obs": emptyObs()},
+	return &outcome{end: map[string]any{"op": "end", "timeout": false, "err": "", "setup": err.Error(), "d": 0, "fin": false, "obs": emptyObs()},
 		base: map[string]any{"data": 0, "rsrc": 0}, total: -1}
 }
 
@@ -403,7 +407,10 @@ func Run(args []string) error {
 				err = eb
 			}
 			if err == nil {
-				a.end["stable"] = obsKey(a) == obsKey(b) && a.end["d"] == b.end["d"]
+				// what an abandoned connection had written back by the time it was dropped depends on the outbox
+				// pump's timing, not on the bytes: only completed runs have to be reproducible
+				a.end["stable"] = a.end["fin"] == b.end["fin"] &&
+					(a.end["fin"] == false || (obsKey(a) == obsKey(b) && a.end["d"] == b.end["d"]))
 			}
 			rmu.Lock()
 			defer rmu.Unlock()
@@ -453,7 +460,7 @@ func Run(args []string) error {
 		}
 		evs := []map[string]any{{"op": "world", "run": run, "sess": s.Name, "conn": s.Conn, "cls": s.Cls, "forks": s.Forks,
 			"frames": s.Frames(), "segs": segs, "total": total, "base": o.base, "ref": refs[sc.Sess].end["obs"],
-			"refd": refs[sc.Sess].end["d"], "referr": refs[sc.Sess].end["err"], "refstable": refs[sc.Sess].end["stable"],
+			"refd": refs[sc.Sess].end["d"], "reffin": refs[sc.Sess].end["fin"], "referr": refs[sc.Sess].end["err"], "refstable": refs[sc.Sess].end["stable"],
 			"refsetup": refs[sc.Sess].end["setup"], "reftimeout": refs[sc.Sess].end["timeout"], "src": sc.Src}}
 		for _, e := range o.evs {
 			e["run"] = run
